@@ -2,7 +2,9 @@ package c02
 
 import (
 	"fmt"
+	"strconv"
 	"strings"
+	"unicode/utf8"
 
 	"verifharness/internal/astser"
 	"verifharness/internal/core"
@@ -28,6 +30,8 @@ type fragSrc struct {
 	handlers    bool // event-handler file (handlers.go): script templates with definitions; spec/Denote.v does not render on* attributes
 	long        bool // long static runs (longrun.go)
 	noTie       bool // contains characters strconv.Quote escapes by an IsPrint table the generator model takes as an oracle: no text tie
+	static      bool // no expression, no statement: one argument tuple per template
+	raw         bool // not valid UTF-8 (nonutf8.go); longrun.go's runs with ill-formed bytes set long and raw
 }
 
 // fragSources: the files of one run - the tgen fragment grammar, then event-handler files and long-static-run files spread
@@ -50,6 +54,26 @@ func fragSources(c *core.Ctx) []fragSrc {
 		base = append(base, fragSrc{prefix: o.Prefix, src: tgen.File(c.Rng.Fork(), o)})
 	}
 	var extra []fragSrc
+	// files that are not valid UTF-8 (nonutf8.go): the one-line sweep first, then the random ones; they stand in front of the other
+	// extra files so that the first failure reported is a small one
+	{
+		pieces := map[string]int{}
+		for i := range nuSweepPos {
+			p := fmt.Sprintf("N%04d", i)
+			extra = append(extra, fragSrc{prefix: p, src: nonUTF8Sweep(p, i, pieces), raw: true, static: true})
+		}
+		for i, n := len(nuSweepPos), len(nuSweepPos)+c.N(12, 240); i < n; i++ {
+			p := fmt.Sprintf("N%04d", i)
+			src, pc := nonUTF8File(c.Rng.Fork(), p, 1+c.Rng.Intn(3))
+			for k, v := range pc {
+				pieces[k] += v
+			}
+			extra = append(extra, fragSrc{prefix: p, src: src, raw: true})
+		}
+		for k, v := range pieces {
+			c.Dist[k] += v
+		}
+	}
 	for i, n := 0, c.N(30, 300); i < n; i++ {
 		p := fmt.Sprintf("H%04d", i)
 		extra = append(extra, fragSrc{prefix: p, src: handlerFile(c.Rng.Fork(), p), handlers: true})
@@ -68,8 +92,9 @@ func fragSources(c *core.Ctx) []fragSrc {
 		} else {
 			size = size*(1+c.Rng.Intn(3)) + c.Rng.Intn(64)
 		}
-		unp := i%3 == 2 // every third file also has characters the Go literal spells as \u escapes
-		extra = append(extra, fragSrc{prefix: p, src: longRunFile(c.Rng.Fork(), p, size, shifts, unp), long: true, noTie: unp})
+		unp := i%3 == 2  // every third file also has characters the Go literal spells as \u escapes
+		rawb := i%3 == 1 // every third file is not valid UTF-8
+		extra = append(extra, fragSrc{prefix: p, src: longRunFile(c.Rng.Fork(), p, size, shifts, unp, rawb), long: true, noTie: unp, raw: rawb})
 	}
 	// spread the extra files evenly
 	var out []fragSrc
@@ -107,6 +132,9 @@ func fragment(c *core.Ctx) {
 			case fs.long:
 				c.Hist(fmt.Sprintf("fragment: long static run file, longest literal %s", sizeBucket(longestLiteral(f.Code))))
 			}
+			if fs.raw {
+				c.Hist(fmt.Sprintf("fragment: file that is not valid UTF-8, %s ill-formed bytes", countBucket(illFormedBytes(fs.src))))
+			}
 			files = append(files, f)
 		}
 		lap("fragment: sources prepared")
@@ -135,7 +163,7 @@ func fragment(c *core.Ctx) {
 			if string(r[1]) != f.Code {
 				textOK = false
 				if c.NFails("fragment: printed IR = generator.Generate text") < 3 {
-					c.Fail("tie", "fragment: printed IR = generator.Generate text", "", map[string]any{"source": trunc(f.Src, 20000), "diff": firstDiff(string(r[1]), f.Code)},
+					c.Fail("tie", "fragment: printed IR = generator.Generate text", "", exact(map[string]any{"source": trunc(f.Src, 20000), "diff": firstDiff(string(r[1]), f.Code)}),
 						"print_frag (coalesce (gens (to_frag body))) differs from the text the real generator writes: the generator no longer emits the statements the proved fragment generator emits")
 				}
 				// still compiled and rendered below: the denotation decides whether the difference breaks the property
@@ -179,6 +207,9 @@ func fragment(c *core.Ctx) {
 					continue
 				}
 				n := c.N(4, 8)
+				if fs.static {
+					n = 1
+				}
 				if fs.handlers {
 					n = c.N(6, 10)
 				}
@@ -237,9 +268,9 @@ func fragment(c *core.Ctx) {
 				markOK = false
 			}
 			mkIn := func(key, model string) map[string]any {
-				return map[string]any{"template": pc[i].Template, "args": pc[i].Args, "source": f.Src, "impl": res[i], key: model, "first_difference": firstDiff(model, res[i])}
+				return exact(map[string]any{"template": pc[i].Template, "args": pc[i].Args, "source": f.Src, "impl": res[i], key: model, "first_difference": firstDiff(model, res[i])})
 			}
-			in := map[string]any{"template": pc[i].Template, "args": pc[i].Args, "source": f.Src, "impl": res[i]}
+			in := exact(map[string]any{"template": pc[i].Template, "args": pc[i].Args, "source": f.Src, "impl": res[i]})
 			if fs.handlers {
 				// the specification predicate on the implementation's own document, without any model: a handler may only call
 				// a script function that a <script> element defines earlier in the document
@@ -319,6 +350,31 @@ func scriptEnv(f probe.File, a tgen.Args) string {
 		}
 	}
 	return astser.List(items...)
+}
+
+// exact: JSON cannot carry a string that is not valid UTF-8 (the encoder replaces every ill-formed byte by U+FFFD): each such
+// value of a failing input is given a second time as an ASCII Go string literal, so that the replay holds the exact bytes.
+func exact(m map[string]any) map[string]any {
+	for k, v := range m {
+		if s, ok := v.(string); ok && !utf8.ValidString(s) {
+			m[k+"_as_go_literal"] = strconv.QuoteToASCII(s)
+		}
+	}
+	return m
+}
+
+func countBucket(n int) string {
+	switch {
+	case n == 0:
+		return "0"
+	case n < 10:
+		return "1..9"
+	case n < 100:
+		return "10..99"
+	case n < 1000:
+		return "100..999"
+	}
+	return ">= 1000"
 }
 
 func hasScriptAttr(src string) bool {
